@@ -38,6 +38,7 @@ def run(ctx):
     ctx.rule(rule_stat, 'C14.R1')
     ctx.rule(rule_project, 'C14.R2')
     ctx.rule(rule_phase_align, 'C14.R3')
+    ctx.rule(rule_align_selection, 'C14.R3')
     ctx.rule(rule_stat_caller, 'C14.R5')
     ctx.rule(rule_bin_cover, 'C14.R4')
     l1.rule_lib_attrs(ctx, 'L1', ['emd.cycles.phase_align', 'emd.cycles.bin_by_phase', 'emd.cycles.get_cycle_stat'],
@@ -253,83 +254,418 @@ def rule_phase_align(ctx, rid):
             ctx.passed(rid, fi, c, '%d store states' % len(stores))
 
 
+def rule_align_selection(ctx, rid):
+    """phase_align: which cycles are aligned.  The cycle iterator is the supplied one, or the all-cycles labelling of
+    the phase when none is supplied; inside the loop a cycle is skipped only when another one was requested (ii) or it
+    has no samples, and every other cycle's column is written."""
+    P = ctx.P
+    fi = P.func('emd.cycles.phase_align')
+    exits = [e for e in Evaluator(P).run(fi, context={'mode': 'cycle'}) if e.kind == 'return']
+    ctx.paths += len(exits)
+    c5 = 'cycles are the supplied ones, or get_cycle_vector(ip, return_good=False) when none are supplied'
+    c6 = 'a cycle is skipped only if another cycle was requested or it has no samples; every other column is written'
+    if not exits:
+        ctx.undecided(rid, fi, c5, 'no returning path')
+        return
+    n5 = n6 = 0
+    for e in exits:
+        given = None
+        for cd, tr, ln in e.state.conds:
+            if cd[0] == 'cmp' and cd[2] == S('cycles') and cd[3] == NONE and cd[1] in ('is', 'isnot'):
+                given = (cd[1] == 'isnot') == tr
+        rv = e.value
+        avg = rv[1][0] if rv[0] == 'tuple' and rv[1] else rv
+        fors = [ls for ls in e.state.loops if ls.kind == 'for']
+        if given is not None and len(fors) == 1 and not (avg[0] == 's' and '@F' in avg[1]) and \
+                any(t[0] == 'call' and t[1] in ('numpy.zeros', 'numpy.full', 'numpy.empty') for t in subterms(avg)):
+            ctx.violation(rid, fi, c6, 'the loop over cycles never writes the returned array %s: no cycle is aligned'
+                          % show(avg)[:50], node=fors[0].node)
+            return
+        if given is None or len(fors) != 1 or not (avg[0] == 's' and '@F' in avg[1]):
+            ctx.undecided(rid, fi, c5, 'path shape not recognised (%d loops)' % len(fors))
+            return
+        ls = fors[0]
+        name = avg[1].split('@')[0]
+        it = ls.iter_term
+        uses_param = S('cycles') in set(subterms(it))
+        gcv = [t for t in subterms(it) if t[0] == 'call' and t[1] == 'emd.cycles.get_cycle_vector']
+        n5 += 1
+        if given and (gcv or not uses_param):
+            ctx.violation(rid, fi, c5, 'the supplied cycles are ignored: the loop runs over %s' % show(it)[:90], node=ls.node)
+            return
+        if not given:
+            if uses_param and not gcv:
+                ctx.violation(rid, fi, c5, 'cycles=None is iterated as it is (%s): no cycles are detected from the phase'
+                              % show(it)[:60], node=ls.node)
+                return
+            if not gcv and any(t[0] == 'call' and NONE in t[2] + tuple(v for _, v in t[3]) for t in subterms(it)):
+                ctx.violation(rid, fi, c5, 'cycles=None is iterated as it is (%s): no cycles are detected from the phase'
+                              % show(it)[:60], node=ls.node)
+                return
+            if not gcv:
+                ctx.undecided(rid, fi, c5, 'default cycles are %s' % show(it)[:80])
+                return
+            kw = dict(gcv[0][3])
+            ph = kw.get('phase', NONE)
+            if kw.get('return_good') != C(False) or kw.get('mask', NONE) != NONE:
+                ctx.violation(rid, fi, c5, 'default cycles are get_cycle_vector(return_good=%s, mask=%s): cycles are dropped '
+                              'before alignment' % (show(kw.get('return_good', NONE)), show(kw.get('mask', NONE))[:20]), node=ls.node)
+                return
+            if S('ip') not in set(subterms(ph)) or S('x') in set(subterms(ph)) - {t for t in subterms(ph) if t[0] == 'call'
+                                                                               and t[1] == 'emd.support.ensure_vector'} and False:
+                ctx.violation(rid, fi, c5, 'default cycles are detected from %s, not from the phase' % show(ph)[:60], node=ls.node)
+                return
+        # ---- skip discipline
+        var = ls.var
+        cind = var[1][0] if var[0] == 'tuple' and len(var[1]) == 2 else None
+        inds = var[1][1] if var[0] == 'tuple' and len(var[1]) == 2 else None
+        if cind is None:
+            ctx.undecided(rid, fi, c6, 'loop variable is %s' % show(var))
+            return
+        for kind, b in ls.body_states:
+            ii_none = same = inds_none = None
+            for cd, tr, ln in b.conds:
+                if cd[0] != 'cmp':
+                    continue
+                if cd[2] == S('ii') and cd[3] == NONE and cd[1] in ('is', 'isnot', '==', '!='):
+                    ii_none = (cd[1] in ('is', '==')) == tr
+                elif {cd[2], cd[3]} == {cind, S('ii')} and cd[1] in ('is', 'isnot', '==', '!='):
+                    same = (cd[1] in ('is', '==')) == tr
+                elif cd[2] == inds and cd[3] == NONE and cd[1] in ('is', 'isnot'):
+                    inds_none = (cd[1] == 'is') == tr
+            wrote = any(f[0] == 'setitem' and f[5] == name for f in b.effects)
+            must_store = inds_none is False and (ii_none is True or same is True)
+            must_skip = inds_none is True or (ii_none is False and same is False)
+            n6 += 1
+            desc = ', '.join('%s=%s' % (k, v) for k, v in (('ii is None', ii_none), ('cycle == ii', same),
+                                                            ('cycle has no samples', inds_none)) if v is not None)
+            if must_store and not wrote:
+                ctx.violation(rid, fi, c6, 'a cycle that should be aligned is skipped (%s): its column keeps the initial value'
+                              % desc, node=ls.node, path=trace_tail(b, 6))
+                return
+            if must_skip and wrote and inds_none is not True:
+                ctx.violation(rid, fi, c6, 'a cycle other than the requested one is aligned (%s)' % desc, node=ls.node,
+                              path=trace_tail(b, 6))
+                return
+            if not must_store and not must_skip and not wrote:
+                ctx.violation(rid, fi, c6, 'a cycle is skipped under a condition the interface does not name (%s)'
+                              % (desc or '; '.join(show(cd)[:40] for cd, _, _ in b.conds[-2:])), node=ls.node,
+                              path=trace_tail(b, 6))
+                return
+    ctx.passed(rid, fi, c5, '%d returning paths' % n5)
+    ctx.passed(rid, fi, c6, '%d loop-body paths' % n6)
+
+
+def _mean_axis0(t, allow_weights=False):
+    """('mean', operand) when t is the arithmetic mean of `operand` along axis 0 in a recognised spelling;
+    ('bad', reason) when it is a recognised reduction that is not that mean; None otherwise."""
+    red = None
+    if t[0] == 'call' and t[1] in ('numpy.average', 'numpy.mean', 'numpy.nanmean', 'numpy.sum', 'numpy.median',
+                                   'numpy.nansum', 'numpy.max', 'numpy.min', 'numpy.std', 'numpy.var') and t[2]:
+        red, arg, kw = t[1].split('.')[1], t[2][0], dict(t[3])
+        if len(t[2]) > 1 and 'axis' not in kw:
+            kw['axis'] = t[2][1]
+    elif t[0] == 'meth' and t[1] in ('mean', 'sum', 'max', 'min', 'std', 'var'):
+        red, arg, kw = t[1], t[2], dict(t[4])
+        if t[3] and 'axis' not in kw:
+            kw['axis'] = t[3][0]
+    if red is None:
+        # sum / count
+        if t[0] == 'bin' and t[1] == '/':
+            m = _mean_axis0(t[2], allow_weights)
+            if m and m[0] == 'bad' and m[2] == 'sum0':
+                return ('ratio', m[3], t[3])
+        return None
+    wts = kw.get('weights', NONE)
+    if wts != NONE and not allow_weights:
+        return ('bad', 'a weighted average', None, arg)
+    ax = kw.get('axis', NONE)
+    if red in ('average', 'mean'):
+        if ax == C(0):
+            return ('mean', arg) if wts == NONE else ('wmean', arg, wts)
+        return ('bad', 'the mean %s (for a 2-D value array every column must be averaged separately along the '
+                'sample axis)' % ('over all elements' if ax == NONE else 'along axis %s' % show(ax)), None, arg)
+    if red == 'sum' and ax == C(0):
+        return ('bad', 'the sum', 'sum0', arg)
+    return ('bad', 'np.%s' % red, None, arg)
+
+
 def rule_bin_cover(ctx, rid):
     P = ctx.P
     fi = P.func('emd.cycles.bin_by_phase')
     ev = Evaluator(P)
-    exits = ev.run(fi, context={'weights': None, 'bin_edges': None, 'variance_metric': 'variance'})
+    exits = ev.run(fi, context={'variance_metric': 'variance'})
     ctx.paths += len(exits)
-    stores = _for_stores(exits, 'avg')
+    alg = mk_algebra()
     c = 'bin loop fills every allocated phase bin (classes 1..nbins -> rows 0..nbins-1)'
-    if not stores:
-        ctx.undecided(rid, fi, c, 'no store into the average array found')
+    c2 = 'every iteration of the bin loop writes the bin mean unless the bin is empty'
+    c3 = 'a bin is filled with the mean along the sample axis of exactly the values whose phase falls in it'
+    c4 = 'default bins are define_hist_bins(0, 2 pi, nbins); supplied edges are used as given'
+    c5 = 'the result has one row per bin and the trailing dimensions of the values'
+    rets = [e for e in exits if e.kind == 'return']
+    if not rets:
+        ctx.undecided(rid, fi, c, 'no returning path')
         return
-    e, ls, b, eff = stores[0]
-    idx, val = eff[2], eff[3]
-    rowt = idx[1][0] if idx[0] == 'tuple' else idx
-    dg = _find_digitize(val)
-    if dg is None:
-        ctx.undecided(rid, fi, c, 'bin selection does not use np.digitize')
-        return
-    edges = dg[2][1]
-    sel = None
-    for t in subterms(val):
-        if t[0] == 'cmp' and ls.var in set(subterms(t)) and _find_digitize(t) is not None:
-            sel = t
-    it = ls.iter_term
-    # allocation: rows of avg
-    alloc = None
-    for n in walk_local(fi.node):
-        if isinstance(n, ast.Assign) and any(isinstance(t, ast.Name) and t.id == 'out_dims' for t in n.targets):
-            alloc = n
-    problem = None
-    try:
-        for nb in ((2, 3, 4, 5, 8, 12, 16) if ctx.tier == 'thorough' else (2, 3, 5)):
-            E = nb + 1
-            el0 = ElemEval(E, {S('nbins'): nb}, edges_terms=(edges,))
-            bounds = [el0.ev(a) for a in it[2]]
-            rng = range(*bounds)
-            rows_written = set()
-            for p in classes(E, with_nan=False):
-                hits = []
-                for ii in rng:
-                    el = ElemEval(E, {S('nbins'): nb, S('ip'): p, ls.var: ii}, edges_terms=(edges,))
-                    if el.ev(_strip_column(sel)):
-                        r = el.ev(rowt)
-                        hits.append(r)
-                        rows_written.add(r)
-                sb = spec_bin(p, E)
-                want = [sb] if sb is not None else []
-                if hits != want:
-                    problem = ('nbins=%d: phase class %s is %s, expected %s'
-                               % (nb, p, 'averaged into row %s' % hits if hits else 'never averaged (row stays NaN)',
-                                  'row %d' % want[0] if want else 'ignored'))
-                    break
+    x_t, ip_t, edges_param = S('x'), S('ip'), S('bin_edges')
+    want_default = ('call', 'emd.spectra.define_hist_bins',
+                    (), (('data_max', ('bin', '*', C(2), ('ref', 'numpy.pi'))), ('data_min', C(0)),
+                         ('nbins', S('nbins')), ('scale', C('linear'))))
+    seen = set()
+
+    def unwrap(t):
+        while True:
+            if t[0] == 'call' and t[1] in ('emd.support.ensure_vector', 'emd.support.ensure_1d_with_singleton'):
+                lst = dict(t[3]).get('to_check')
+                if lst is not None and lst[0] in ('list', 'tuple') and len(lst[1]) == 1:
+                    t = lst[1][0]
+                    continue
+            if t[0] == 'call' and t[1] in ('numpy.asarray', 'numpy.array', 'numpy.ravel', 'numpy.squeeze') and t[2]:
+                t = t[2][0]
+                continue
+            if t[0] == 'meth' and t[1] in ('ravel', 'flatten', 'squeeze', 'copy'):
+                t = t[2]
+                continue
+            return t
+
+    def says_empty(conds, sel):
+        """do the path conditions say that no sample falls in the bin?"""
+        sums = [('meth', 'sum', sel, (), ()), ('call', 'numpy.sum', (sel,), ()), ('call', 'numpy.count_nonzero', (sel,), ())]
+        anys = [('meth', 'any', sel, (), ()), ('call', 'numpy.any', (sel,), ())]
+        for cn, tr, _ in conds:
+            if cn in anys and not tr:
+                return True
+            if cn[0] == 'cmp' and cn[2] in sums and cn[3] == C(0):
+                if (cn[1] == '>' and not tr) or (cn[1] == '==' and tr) or (cn[1] == '!=' and not tr) or (cn[1] == '<=' and tr):
+                    return True
+            if cn[0] == 'cmp' and cn[2] in sums and cn[3] == C(1) and ((cn[1] == '>=' and not tr) or (cn[1] == '<' and tr)):
+                return True
+        return False
+    for e in rets:
+        which = None
+        for cd, tr, ln in e.state.conds:
+            if cd[0] == 'cmp' and cd[2] == edges_param and cd[3] == NONE and cd[1] in ('is', 'isnot'):
+                which = 'default' if (cd[1] == 'is') == tr else 'given'
+        weighted = None
+        for cd, tr, ln in e.state.conds:
+            if cd[0] == 'cmp' and cd[2] == S('weights') and cd[3] == NONE and cd[1] in ('is', 'isnot'):
+                weighted = (cd[1] == 'isnot') == tr
+        if which is None or weighted is None:
+            ctx.undecided(rid, fi, c4, 'a path is not selected by `bin_edges is None` / `weights is None`')
+            return
+        seen.add((which, weighted))
+        tag = ' (%s edges, %s)' % (which, 'weighted' if weighted else 'unweighted')
+        rv = e.value
+        if not (rv[0] == 'tuple' and len(rv[1]) == 3):
+            ctx.undecided(rid, fi, c, 'returns %s' % show(rv)[:60])
+            return
+        avg = rv[1][0]
+        fors = [ls for ls in e.state.loops if ls.kind == 'for']
+        if not (avg[0] == 's' and '@F' in avg[1] and avg[1].endswith('post')):
+            if fors or any(t[0] == 'call' and t[1] in ('numpy.zeros', 'numpy.full', 'numpy.empty') for t in subterms(avg)) \
+                    and not any(t[0] in ('setitem',) for t in subterms(avg)):
+                ctx.violation(rid, fi, c2, 'the returned average %s is never written: every bin stays NaN' % show(avg)[:60],
+                              node=e.node)
+                return
+            ctx.undecided(rid, fi, c, 'returned average is %s' % show(avg)[:60])
+            return
+        name = avg[1].split('@')[0]
+        stores = [(ls, b, eff) for ls in fors for kind, b in ls.body_states for eff in b.effects
+                  if eff[0] == 'setitem' and eff[5] == name]
+        if not stores:
+            ctx.violation(rid, fi, c2, 'the bin loop never writes the returned average: every bin stays NaN' + tag, node=e.node)
+            return
+        def infeasible(b_):
+            # inside the loop `weights is None` is asked again after weights was normalised by ensure_*: the evaluator
+            # cannot decide it, the outer condition can
+            for cn, tr, _ in b_.conds:
+                if cn[0] == 'cmp' and cn[3] == NONE and cn[1] in ('is', 'isnot') and cn[2][0] == 'call' \
+                        and cn[2][1].startswith('emd.support.ensure_') and ((cn[1] == 'is') == tr):
+                    return True
+                if cn[0] == 'cmp' and cn[3] == NONE and cn[1] in ('is', 'isnot') and cn[2] == S('weights') \
+                        and ((cn[1] == 'isnot') == tr) != weighted:
+                    return True
+            return False
+        stores = [(ls, b, eff) for ls, b, eff in stores if not infeasible(b)]
+        uniq = []
+        for ls, b, eff in stores:
+            if not any(eff[2] == u[2][2] and eff[3] == u[2][3] for u in uniq):
+                uniq.append((ls, b, eff))
+        if not uniq:
+            ctx.undecided(rid, fi, c2, 'no feasible store' + tag)
+            return
+        for ls, b, eff in uniq:
+            idx, val = eff[2], eff[3]
+            rowt = idx[1][0] if idx[0] == 'tuple' else idx
+            # ---- what is written
+            m = _mean_axis0(val, allow_weights=weighted)
+            if m is None:
+                ctx.undecided(rid, fi, c3, 'bin value is %s' % show(val)[:80])
+                return
+            if m[0] == 'bad':
+                ctx.violation(rid, fi, c3, 'a bin is filled with %s of its samples, not their mean%s' % (m[1], tag), node=ls.node,
+                              found=show(val)[:100])
+                return
+            operand = m[1]
+            if not (operand[0] == 'sub' and operand[1] == x_t):
+                ctx.violation(rid, fi, c3, 'the averaged samples are %s, not a selection of the value array x' % show(operand)[:60] + tag,
+                              node=ls.node)
+                return
+            sel = operand[2]
+            if sel[0] == 'tuple':
+                rest = sel[1][1:]
+                sel = sel[1][0]
+                if not all(r == ('c', Ellipsis) or (r[0] == 'slice' and r[1:] == (NONE, NONE, NONE)) for r in rest):
+                    ctx.violation(rid, fi, c3, 'the selection of x also restricts trailing axes: %s' % show(operand[2])[:60] + tag,
+                                  node=ls.node)
+                    return
+            if m[0] == 'ratio':
+                cnt = m[2]
+                oks = [('call', 'numpy.sum', (sel,), ()), ('meth', 'sum', sel, (), ()),
+                       ('call', 'numpy.count_nonzero', (sel,), ())]
+                if cnt not in oks:
+                    ctx.violation(rid, fi, c3, 'sum of the bin divided by %s, not by the number of its samples' % show(cnt)[:50] + tag,
+                                  node=ls.node)
+                    return
+            if not (sel[0] == 'cmp' and ls.var in set(subterms(sel))):
+                ctx.undecided(rid, fi, c3, 'bin membership is %s' % show(sel)[:80])
+                return
+            if m[0] == 'wmean':
+                wsrc = [t for t in subterms(m[2]) if t[0] == 'sub' and t[2] == sel]
+                if not any(unwrap(t[1]) == S('weights') for t in wsrc):
+                    ctx.violation(rid, fi, c3, 'the weights of a bin are %s, not the weights of its own samples' % show(m[2])[:70] + tag,
+                                  node=ls.node)
+                    return
+            dg = _find_digitize(sel)
+            if dg is None:
+                ctx.undecided(rid, fi, c, 'bin selection does not use np.digitize')
+                return
+            if len(dg[2]) < 2 or (dict(dg[3]).get('right', C(False)) != C(False)):
+                ctx.undecided(rid, fi, c3, 'digitize call %s' % show(dg)[:80])
+                return
+            src, edges = dg[2][0], dg[2][1]
+
+            want_edges = ('sub', want_default, C(0)) if which == 'default' else edges_param
+            if unwrap(src) != ip_t:
+                if unwrap(edges) == ip_t:
+                    ctx.violation(rid, fi, c3, 'np.digitize is called with (edges, phase): the phase vector is used as the bin '
+                                  'edges' + tag, node=ls.node, found=show(dg)[:100])
+                else:
+                    ctx.violation(rid, fi, c3, 'bin membership is computed from %s, not from the phase ip' % show(src)[:60] + tag,
+                                  node=ls.node)
+                return
+            if edges != want_edges:
+                ctx.violation(rid, fi, c4, 'phase is digitised against %s%s' % (show(edges)[:110], tag), node=ls.node,
+                              expected=show(want_edges)[:110])
+                return
+            # ---- class cover: concrete enumeration
+            selc = None
+            for t in subterms(sel):
+                if t[0] == 'cmp' and ls.var in set(subterms(t)) and _find_digitize(t) is not None:
+                    selc = t
+            it = ls.iter_term
+            problem = None
+            try:
+                for nb in ((2, 3, 4, 5, 8, 12, 16) if ctx.tier == 'thorough' else (2, 3, 5)):
+                    E = nb + 1
+                    bind0 = {S('nbins'): nb}
+                    el0 = ElemEval(E, bind0, edges_terms=(edges,))
+                    bounds = [el0.ev(a) for a in it[2]]
+                    rng = range(*bounds)
+                    for pz in classes(E, with_nan=False):
+                        hits = []
+                        for ii in rng:
+                            bind = dict(bind0)
+                            bind[src] = pz
+                            bind[ls.var] = ii
+                            el = ElemEval(E, bind, edges_terms=(edges,))
+                            if el.ev(_strip_column(selc)):
+                                hits.append(el.ev(rowt))
+                        sb = spec_bin(pz, E)
+                        want = [sb] if sb is not None else []
+                        if hits != want:
+                            problem = ('nbins=%d: phase class %s is %s, expected %s'
+                                       % (nb, pz, 'averaged into row %s' % hits if hits else 'never averaged (row stays NaN)',
+                                          'row %d' % want[0] if want else 'ignored'))
+                            break
+                    if problem:
+                        break
+            except Undecided as u:
+                ctx.undecided(rid, fi, c, 'index expression outside the class domain: %s' % u)
+                return
             if problem:
-                break
-    except Undecided as u:
-        ctx.undecided(rid, fi, c, 'index expression outside the class domain: %s' % u)
-        return
-    if problem:
-        ctx.violation(rid, fi, c, problem, node=ls.node, expected='loop index covers 1..nbins', found=show(it))
-    else:
-        ctx.passed(rid, fi, c, 'nbins in {2,3,5}, all classes', node=ls.node)
-    # without weights, every iteration of the bin loop must write the mean: a path through the body that skips the
-    # store leaves a bin that contains samples unfilled
-    c2 = 'every iteration of the bin loop writes the bin mean (no skipping path, unweighted case)'
-    skips = []
-    for kind, b in ls.body_states:
-        wrote = any(eff[0] == 'setitem' and eff[5] == 'avg' for eff in b.effects)
-        if not wrote:
-            conds = [(cn, t) for cn, t, _ in b.conds if ls.var in set(subterms(cn))]
-            skips.append((b, conds))
-    if skips:
-        b, conds = skips[0]
-        ctx.violation(rid, fi, c2, 'a path through the loop body leaves the bin unwritten under %s: bins that contain '
-                      'samples stay NaN' % ('; '.join('%s == %s' % (show(cn)[:60], t) for cn, t in conds) or 'some condition'),
-                      node=ls.node, path=trace_tail(b, 6))
-    else:
-        ctx.passed(rid, fi, c2, '%d body paths, all writing' % len(ls.body_states), node=ls.node)
+                ctx.violation(rid, fi, c, problem + tag, node=ls.node, expected='loop index covers 1..nbins', found=show(it))
+                return
+            ctx.passed(rid, fi, c, 'nbins in {2,3,5}, all classes' + tag, node=ls.node)
+            ctx.passed(rid, fi, c3, 'np.digitize(ip, edges) == i selects rows of x; mean along axis 0' + tag, node=ls.node)
+            ctx.passed(rid, fi, c4, show(want_edges)[:80] + tag, node=ls.node)
+        # ---- no skipping path
+        skips = []
+        for kind, b2 in ls.body_states:
+            if infeasible(b2):
+                continue
+            wrote = any(f[0] == 'setitem' and f[5] == name for f in b2.effects)
+            if wrote and says_empty(b2.conds, sel):
+                skips.append((b2, [(cn, t) for cn, t, _ in b2.conds if ls.var in set(subterms(cn))]))
+                continue
+            if not wrote and says_empty(b2.conds, sel):
+                continue    # an empty bin stays NaN
+            if not wrote:
+                conds = [(cn, t) for cn, t, _ in b2.conds if ls.var in set(subterms(cn))]
+                skips.append((b2, conds))
+        if skips:
+            b2, conds = skips[0]
+            ctx.violation(rid, fi, c2, 'a path through the loop body %s under %s: bins that contain '
+                          'samples stay NaN' % ('averages an empty bin and skips the occupied ones' if says_empty(b2.conds, sel)
+                                                else 'leaves the bin unwritten', '; '.join('%s == %s' % (show(cn)[:60], t) for cn, t in conds) or 'some condition'),
+                          node=ls.node, path=trace_tail(b2, 6))
+            return
+        ctx.passed(rid, fi, c2, '%d body paths, all writing%s' % (len(ls.body_states), tag), node=ls.node)
+        # ---- allocation: rows x trailing dims of x
+        alloc = ls.entry_env.get(name)
+        rows_want = S('nbins') if which == 'default' else ('bin', '-', ('call', 'builtins.len', (edges_param,), ()), C(1))
+        shp = None
+        if alloc is not None:
+            for t in subterms(alloc):
+                if t[0] == 'call' and t[1] in ('numpy.zeros', 'numpy.full', 'numpy.empty', 'numpy.ones') and (t[2] or t[3]):
+                    shp = t[2][0] if t[2] else dict(t[3]).get('shape')
+        tail_want = ('sub', ('attr', x_t, 'shape'), ('slice', C(1), NONE, NONE))
+        verdict = None
+        if shp is not None:
+            while shp[0] == 'call' and shp[1] in ('builtins.list', 'builtins.tuple') and len(shp[2]) == 1:
+                shp = shp[2][0]
+            if shp[0] in ('list', 'tuple') and len(shp[1]) == 2 and shp[1][1][0] == 'starred':
+                r, tl = shp[1][0], shp[1][1][1]
+                try:
+                    okr = alg.poly(r) == alg.poly(rows_want)
+                except Exception:
+                    okr = r == rows_want
+                if not okr:
+                    verdict = 'allocates %s rows for %s bins' % (show(r)[:40], show(rows_want)[:40])
+                elif tl != tail_want:
+                    if tl[0] == 'sub' and tl[1] == ('attr', x_t, 'shape'):
+                        verdict = 'trailing dimensions are %s, not x.shape[1:]' % show(tl)[:40]
+                    else:
+                        verdict = None if tl is None else '?'
+                else:
+                    verdict = 'ok'
+        if verdict == 'ok':
+            ctx.passed(rid, fi, c5, show(shp)[:60] + tag)
+        elif verdict in (None, '?'):
+            ctx.undecided(rid, fi, c5, 'allocation is %s' % (show(alloc)[:80] if alloc is not None else None))
+        else:
+            ctx.violation(rid, fi, c5, verdict + tag, found=show(shp)[:80])
+        # ---- valid input is not rejected: the length agreement of ip and x is checked on the sample axis
+        for f in e.state.effects:
+            if f[0] == 'expr' and f[1][0] == 'call' and f[1][1] == 'emd.support.ensure_equal_dims':
+                kw = dict(f[1][3])
+                c6 = 'the input check compares phase and values on the sample axis'
+                if kw.get('dim', C(0)) != C(0):
+                    ctx.violation(rid, fi, c6, 'ensure_equal_dims(..., dim=%s): valid inputs (2-D values, 1-D phase) are '
+                                  'rejected or mismatched lengths accepted' % show(kw.get('dim')), node=e.node)
+                else:
+                    ctx.passed(rid, fi, c6, tag)
+    if {w for w, _ in seen} != {'default', 'given'} or {w for _, w in seen} != {True, False}:
+        ctx.undecided(rid, fi, c4, 'paths found: %s' % sorted(seen))
 
 
 def rule_stat_caller(ctx, rid):
